@@ -30,6 +30,12 @@ def run(R):
     R.trusted = ["CPython ast / clang-14 AST", "exact polynomial arithmetic with sin^2+cos^2=1 (engine/poly.py, engine/vn.py)",
                  "numpy object-array broadcasting"]
     R.assume("real arithmetic; wavelength != 0 and |d| != 0")
+    if R.want("C02.R6"):
+        # the forward maps that the inversion laws invert: both C kernels and the Python chain are one function
+        # (same composition order of omega, chi, wedge; same grain-origin shift).  Shared with C01.R2 / C01.R4.
+        from rules import c01
+        mods = {"transform": pyfacts.module(R, c01.TR), "point_by_point": pyfacts.module(R, c01.PBP)}
+        c01.r24(R, mods, r2n="C02.R6", r4n="C02.R6")
     if R.want("C02.P1") or R.want("C02.P2"):
         p12(R)
     if R.want("C02.P3"):
